@@ -319,4 +319,27 @@ CHECKS["C12"] = {
     "level_note": "Trusted: the life segmentation rule in harness/c12_switch.cpp.",
 }
 
+CHECKS["C13"] = {
+    "title": "Reading through a reference equals reading its current target",
+    "level": "exploration",
+    "technique": "exhaustive bounded enumeration of selector x target-operation histories over reference-producing programs on the real engine; "
+                 "oracle = reference selection model + a checker-side copy maintained from the deltas the consumer sees",
+    "design_ref": "DESIGN.md 2/C13",
+    "parts": [{"name": "ref", "exe": "c13_ref", "sources": ["c13_ref.cpp"], "shards": 16}],
+    "rule": "programs: if_then_else(cond,A,B) with one consumer / two consumers / passed through nested_<pass-through> / switch_ with pass-through "
+            "branches; target shapes TS<Int>, TSS<Int>, TSD<Int,TS<Int>>; per cycle selector tick in {-,T,F} x one operation of a 3-4 symbol alphabet "
+            "on A x one on B (ticks, removals, no-ops), every history over T cycles. Oracle: consumer evaluated iff the current target ticks or the "
+            "reference is re-pointed to a valid different target; never on re-publication of the same reference or on ticks of the unselected target; "
+            "value read == the selected target's value; for TS the delta equals the value; for TSS/TSD the canonical delta (capture_delta) applied to the "
+            "checker's copy of what the consumer held must give the value read, nothing is reported removed that was not held and nothing added that "
+            "was held. While the reference designates a target that holds no value everything is a don't-care and the next evaluation re-bases the "
+            "copy. non-trivial = >= 2 retargets or a retarget coinciding with a tick.",
+    "bounds": {"quick": "T=4 (TS), T=3 with 4-symbol alphabets and T=4 with 3-symbol alphabets (TSS/TSD)", "thorough": "T=5 / T=4 / T=5"},
+    "min_counters": {"quick": {"nontrivial": 500000, "ref.cases_nd": 20000}},
+    "assumptions": COMMON_ASSUMPTIONS + ["Retarget to a target that holds no value and scalar unbind are don't-cares (the statement covers valid targets).",
+                                           "The typed accessors (added()/removed_items()) are not the oracle's delta; the canonical delta is."],
+    "level_text": "Complete enumeration of the bounded history space per program and shape against a selection model and a delta-maintained copy.",
+    "level_note": "Trusted: the selection/unknown-mode model in harness/c13_ref.cpp. Four defect classes found on the unchanged tree are recorded in known_findings.jsonl.",
+}
+
 NOT_APPLICABLE = {}
